@@ -19,9 +19,9 @@ const (
 
 func init() {
 	register(&PropSpec{
-		ID: "C01",
+		ID:          "C01",
 		Explanation: "Structural necessary conditions for exactly-once, accounted upstream delivery on a connection that stays up. The 'cut' is the function that turns the send buffer into a chunk. R1: the chunk is built from the buffer and the buffer is replaced while the stream mutex is held in write mode, with no release in between. R2: every path from the chunk construction to a return resets the buffer to a fresh map and both counters to zero. R3: the point total is advanced by the buffered point count before that count is zeroed. R4: the sequence generator's Next has exactly one call site (not in a loop, inside the cut), adds the constant 1, starts at 0; a new chunk's sequence number comes from that call and a retransmitted chunk's from the stored key. R5: the close request's totals derive only from the stream's total counter and the generator's current value, and Close drains (flush, then wait for the store to empty) before the close request unless the stream was resuming. R6: each hook has exactly one call site, the send hook on the cut path. R7: the send buffer is stored to only by the constructor and the cut, and updated only in the flush loop; alias substitution takes alias and points from the same group.",
-		NotDecided: []string{"the conservation law itself (multiset equality, per-id order, alias decoding at the broker)", "behaviour under concurrent Write/Close", "no chunk after the close request", "exactly-once hook delivery under duplicated acks"},
+		NotDecided:  []string{"the conservation law itself (multiset equality, per-id order, alias decoding at the broker)", "behaviour under concurrent Write/Close", "no chunk after the close request", "exactly-once hook delivery under duplicated acks"},
 		Assumptions: []string{"the cut function is discovered as the function that reaches the sequence generator's Next and resets the send buffer"},
 		Rules: func(r *Run) {
 			le := newLockEngine(r.P)
@@ -38,6 +38,7 @@ func init() {
 			ruleC01R7(r, cut)
 			ruleC01R8(r)
 			ruleFlushRendezvous(r, "R9")
+			ruleC01R10(r)
 		},
 	})
 }
@@ -487,6 +488,15 @@ func ruleC01R5(r *Run) {
 		}
 	})
 	r.Check(dname+" waits for empty store and buffer", len(lists) >= 1 && readsBuf, p.pos(drainFn.Pos()), dname, fmt.Sprintf("List calls: %d, reads sendBuffer: %v", len(lists), readsBuf))
+	// no success return bypasses the emptiness test: a nil error is returned only on paths through the store's List
+	if len(lists) >= 1 {
+		wit, why := successReturnWithout(drainFn, func(ins ssa.Instruction) bool { return isCallNamed(ins, "/iscp.sentStorage.List") })
+		where := p.pos(drainFn.Pos())
+		if wit != nil {
+			where = posOf(p, wit)
+		}
+		r.Check(dname+" no success return bypasses the wait", wit == nil, where, dname, "a return of a nil error ("+why+") is reachable from the entry without consulting the unacknowledged-chunk store: Close then proceeds to the close request while chunks may still be unacknowledged (acks arriving out of order) or points still buffered")
+	}
 }
 
 // reachesWithoutFromBlock: like reachesWithout but starting at the head of a block.
@@ -748,5 +758,78 @@ func ruleFlushRendezvous(r *Run, id string) {
 			}
 			r.Check(fnName(fn)+" result hand-back watches the requester", watches && sel.Blocking, p.pos(sel.Pos()), fnName(fn), "the select sending the flush result must have a receive case on the requester's done channel")
 		})
+	}
+}
+
+// ruleC01R10: the ack timeout drops a chunk from the sent store when it fires, so Close can return before the broker
+// acknowledged. It must therefore be off unless the application asks for it: every store into UpstreamConfig.AckTimeout
+// is either the constant 0 (the default) or a value handed in by the caller of an exported option/constructor.
+func ruleC01R10(r *Run) {
+	r.Begin("R10", "ack timeout is opt-in: every store into UpstreamConfig.AckTimeout is the constant 0 or derives only from a parameter of an exported function (the application's own choice); the timeout path is taken only when the field is non-zero", 2)
+	p := r.P
+	f := r.field("/iscp", "UpstreamConfig", "AckTimeout")
+	if f == nil {
+		return
+	}
+	sts := p.fieldStores(f)
+	r.Stat("acktimeout_stores", len(sts))
+	k := map[string]int{}
+	for _, st := range sts {
+		fn := st.Parent()
+		name := fnName(fn)
+		k[name]++
+		l := p.Leaves(st.Val, provOpts{})
+		ok := len(l) > 0
+		for _, x := range l {
+			switch {
+			case x == "const:0", strings.HasPrefix(x, "zero:"):
+			case strings.HasPrefix(x, "param:"):
+				// the parameter of the function that stores it (an option constructor's argument, captured by its closure)
+			default:
+				ok = false
+			}
+		}
+		r.Check(fmt.Sprintf("%s AckTimeout store#%d", name, k[name]), ok, posOf(p, st), name, "stored value derives from ["+joinLeaves(l)+"]; only 0 or a caller-supplied parameter is acceptable: a non-zero default makes Close return before slow acknowledgements arrive")
+	}
+	// the timeout branch is conditional on the field being non-zero
+	w := r.method("/iscp", "Upstream", "withAckTimeoutCh")
+	if w == nil {
+		return
+	}
+	found := false
+	withAnon(w, func(fn *ssa.Function) {
+		for _, c := range findCalls(fn, false, "context.WithTimeout") {
+			call := c.(*ssa.Call)
+			// dominated by the true edge of AckTimeout != 0
+			ok := false
+			allInstrs(fn, func(ins ssa.Instruction) {
+				ifs, isIf := ins.(*ssa.If)
+				if !isIf {
+					return
+				}
+				bo, isBo := ifs.Cond.(*ssa.BinOp)
+				if !isBo {
+					return
+				}
+				kz, isK := constInt(bo.Y)
+				if !isK || kz != 0 || !hasLeaf(p.Leaves(bo.X, provOpts{}), "field:/iscp.UpstreamConfig.AckTimeout") {
+					return
+				}
+				edge := 0
+				if bo.Op == token.EQL {
+					edge = 1
+				} else if bo.Op != token.NEQ {
+					return
+				}
+				if edgeDominates(ifs.Block(), ifs.Block().Succs[edge], call.Block()) {
+					ok = true
+				}
+			})
+			found = true
+			r.Check(fnName(fn)+" timeout only when configured", ok, posOf(p, call), fnName(fn), "context.WithTimeout must be reached only on the AckTimeout != 0 edge")
+		}
+	})
+	if !found {
+		r.Undecided(fnName(w)+" timeout", "no context.WithTimeout call found in withAckTimeoutCh")
 	}
 }
